@@ -169,6 +169,22 @@ def add_ops(draw, ndet, fault=None, dict_bias=False, nowave=None):
                 fault=fault)
 
 
+def effective_faults(cfg):
+    """Malformed arguments that the options `cfg` make the writer use, provided the
+    event is triggered and has a waveform (generator helper only)."""
+    w, to = write_flags(cfg), trigger_only(cfg)
+    out = []
+    if w["rays"]:
+        out += ["no_rays", "no_pols", "rays_len", "pols_len", "pol_inner"]
+    if any(to.values()) or w["triggers"]:
+        out.append("trig_none")
+    if w["triggers"] or any(w[t] and to[t] for t in TABLES):
+        out.append("no_global")
+    if w["triggers"]:
+        out += ["short_list", "short_list"]
+    return out
+
+
 @st.composite
 def history_cases(draw, focus=None, faults=False, min_ops=1, max_ops=6,
                   slice_ranges=(None, None, None, 1, 2, 3), nowave_probe=False):
@@ -176,21 +192,45 @@ def history_cases(draw, focus=None, faults=False, min_ops=1, max_ops=6,
     det = draw(detectors())
     n = draw(st.integers(min_ops, max_ops))
     flags = [None] * n
+    forced = set()
     if faults:
-        n = max(n, 2)
-        flags = [draw(st.sampled_from(FAULTS)) if draw(st.integers(0, 2)) == 0 else None
-                 for _ in range(n)]
-        if all(f is None for f in flags):
-            flags[draw(st.integers(0, n - 1))] = draw(st.sampled_from(FAULTS))
+        layout = draw(st.sampled_from(["between", "between", "last", "first", "any", "any"]))
+        n = max(n, 3 if layout == "between" else 2)
+        eff = effective_faults(cfg)
+
+        def one_fault(k):
+            if eff and draw(st.integers(0, 3)) > 0:
+                forced.add(k)
+                return draw(st.sampled_from(eff))
+            return draw(st.sampled_from(FAULTS))
+        flags = [None] * n
+        if layout == "between":
+            k = draw(st.integers(1, n - 2))
+            flags[k] = one_fault(k)
+        elif layout == "last":
+            flags[n - 1] = one_fault(n - 1)
+        elif layout == "first":
+            flags[0] = one_fault(0)
+        for k in range(n):
+            if flags[k] is None and draw(st.integers(0, 4 if layout != "any" else 1)) == 0:
+                flags[k] = one_fault(k)
         if all(f is not None for f in flags):
             flags[draw(st.integers(0, n - 1))] = None
+        if all(f is None for f in flags):
+            k = draw(st.integers(0, n - 1))
+            flags[k] = one_fault(k)
     ops = []
-    for f in flags:
+    for k, f in enumerate(flags):
         nowave = None
         if nowave_probe:
             nowave = draw(st.sampled_from([True, False, False]))
-        ops.append(draw(add_ops(len(det), fault=f, dict_bias=focus == "triggers" or nowave_probe,
-                                nowave=nowave)))
+        if k in forced:
+            nowave = False
+        op = draw(add_ops(len(det), fault=f, dict_bias=focus == "triggers" or nowave_probe,
+                          nowave=nowave))
+        if k in forced:
+            op["trig"]["global"] = True     # so that trigger-only kinds are recorded
+        ops.append(op)
     if nowave_probe:
         # one waveform-less event carries a true event-level component trigger
         k = draw(st.integers(0, n - 1))
@@ -837,6 +877,16 @@ def row_signature(cfg, r):
             0 if e["waveforms"] is None else r["max_waves"])
 
 
+def _late(entry):
+    """Rejected by a check that is only reached after other kinds of data (the
+    particles at least) have been dealt with -- as opposed to the two argument
+    checks documented for add() itself."""
+    if entry["accepted"]:
+        return False
+    return (entry["fault"] in ("rays_len", "pols_len", "pol_inner", "short_list", "no_global")
+            or (entry["fault"] == "trig_none" and entry["error"] == "TypeError"))
+
+
 def case_classes(case, records, log):
     cfg = case["config"]
     cl = set()
@@ -867,8 +917,7 @@ def case_classes(case, records, log):
             cl.add("rejected_last")
         if not acc[0]:
             cl.add("rejected_first")
-        if any(l["fault"] in ("rays_len", "pols_len", "pol_inner", "short_list", "no_global")
-               and not l["accepted"] for l in log):
+        if any(_late(l) for l in log):
             cl.add("rejected_late")      # refused by a check that sits behind other kinds of data
     if any(l["fault"] and l["accepted"] for l in log):
         cl.add("malformed_but_unused")   # the options never look at the malformed argument
@@ -896,8 +945,7 @@ class scratch:
 def _late_reject_before(log, records, idx):
     """Was an add refused (behind already written data) before accepted event idx?"""
     k_evt = records[idx]["k"]
-    return any((not l["accepted"]) and l["k"] < k_evt and l["fault"] in
-               ("rays_len", "pols_len", "pol_inner", "short_list", "no_global") for l in log)
+    return any(_late(l) and l["k"] < k_evt for l in log)
 
 
 def make_roundtrip(parts, mode="iter", accessors=False, check_len=True):
@@ -940,11 +988,14 @@ def check_len_only(case, rec):
         if l["accepted"]:
             break
         tail += 1
+    note = ""
+    if tail and n == len(records) + 1 and any(_late(l) for l in log[len(log) - tail:]):
+        note = " [one event more, history ends with a call rejected after the particle table]"
     require(n == len(records), "[len] len(file) = %d after %d accepted and %d rejected add() "
-            "calls (the last %d calls were rejected)", n, len(records),
-            len(log) - len(records), tail)
-    require(m == len(records), "[len] iteration yields %d events after %d accepted add() calls",
-            m, len(records))
+            "calls (the last %d calls were rejected)%s", n, len(records),
+            len(log) - len(records), tail, note)
+    require(m == len(records), "[len] iteration yields %d events after %d accepted add() calls"
+            "%s", m, len(records), note)
     cl = case_classes(case, records, log)
     rec.case(case, nontrivial="rejected" in cl, classes=cl)
 
@@ -964,9 +1015,13 @@ def check_thrown(case, rec):
         with File(path, "r") as f:
             total = int(f.total_events_thrown)
     want = sum(r["thrown"] for r in records)
+    late = [case["ops"][l["k"]]["thrown"] for l in log if _late(l)]
+    note = ""
+    if late and total == want + sum(late):
+        note = " [= accepted + calls rejected after the particle table]"
     require(total == want, "[thrown] total_events_thrown = %d, the accepted add() calls threw "
-            "%r (sum %d); rejected calls carried %r", total, [r["thrown"] for r in records],
-            want, [case["ops"][l["k"]]["thrown"] for l in log if not l["accepted"]])
+            "%r (sum %d); rejected calls carried %r%s", total, [r["thrown"] for r in records],
+            want, [case["ops"][l["k"]]["thrown"] for l in log if not l["accepted"]], note)
     cl = case_classes(case, records, log)
     rec.case(case, nontrivial=len(records) >= 2, classes=cl)
 
@@ -1052,27 +1107,27 @@ def _msg(exc):
 
 def classify_roundtrip(case, exc):
     m = _msg(exc)
-    if "[after a rejected add]" in m and not m.startswith("[len]"):
-        return "rejected_add_orphan_rows_shift_later_events"
-    if isinstance(exc, KeyError) and "mc_triggers" in m and any(op["fault"] for op in case["ops"]):
-        return "rejected_add_orphan_table_unreadable"
     if m.startswith("[components]") and "antenna_" in m:
         rt = case["config"]["require_trigger"]
         if isinstance(rt, (list, str)) and "antenna_triggers" in ([rt] if isinstance(rt, str) else rt):
             return "antenna_trigger_column_mismatch"
+    if isinstance(exc, KeyError) and "mc_triggers" in m and any(op["fault"] for op in case["ops"]):
+        return "rejected_add_orphan_table_unreadable"
+    if "[after a rejected add]" in m and not m.startswith("[len]"):
+        return "rejected_add_orphan_rows_shift_later_events"
     return None
 
 
 def classify_len(case, exc):
     m = _msg(exc)
-    if m.startswith("[len]") and any(op["fault"] for op in case["ops"]):
+    if m.startswith("[len]") and "[one event more, history ends with a call rejected" in m:
         return "rejected_add_leaves_phantom_event"
     return None
 
 
 def classify_thrown(case, exc):
     m = _msg(exc)
-    if m.startswith("[thrown]") and any(op["fault"] for op in case["ops"]):
+    if m.startswith("[thrown]") and "[= accepted + calls rejected after the particle table]" in m:
         return "rejected_add_counts_events_thrown"
     return None
 
@@ -1095,62 +1150,72 @@ PROPERTY = Property(
     "C11", "HDF5 write-read round trip returns each event's own data for every configuration",
     [
         SubCheck("particles", history_cases(), make_roundtrip(["particles"], accessors=True),
-                 quick=160, thorough=8000, rule=_RULE + "; compares len(file) and all particle "
-                 "columns (dict and attribute forms) of every event",
-                 floors={"varied_rows": 0.15, "particle_tree": 0.3, "rt_list": 0.2}),
+                 quick=160, thorough=8000,
+                 rule=_RULE + "; compares len(file) and all particle columns (dict and "
+                 "attribute forms) of every event",
+                 floors={"varied_rows": 0.2, "particle_tree": 0.3, "rt_list": 0.2,
+                         "chunked_read": 0.1}),
         SubCheck("triggers", history_cases(focus="triggers"),
                  make_roundtrip(["triggered", "components"], accessors=True),
-                 quick=240, thorough=12000, rule=_RULE + "; global trigger and triggered "
-                 "components per ray number and for the whole event",
-                 floors={"mixed_triggers": 0.3, "rt_list": 0.2, "event_without_waveforms": 0.1},
+                 quick=200, thorough=10000,
+                 rule=_RULE + "; global trigger and triggered components per ray number and "
+                 "for the whole event",
+                 floors={"mixed_triggers": 0.25, "rt_list": 0.3, "event_without_waveforms": 0.2},
                  classify=classify_roundtrip, shrink_cap=(60, 300)),
         SubCheck("rays", history_cases(focus="rays"), make_roundtrip(["rays"], accessors=True),
-                 quick=160, thorough=8000, rule=_RULE + "; ray metadata + polarization per "
-                 "ray x antenna (recorded entries; padding entries only have to exist)",
-                 floors={"varied_rows": 0.15, "mixed_triggers": 0.3}),
+                 quick=160, thorough=8000,
+                 rule=_RULE + "; ray metadata + polarization per ray x antenna (recorded "
+                 "entries; padding entries only have to exist)",
+                 floors={"varied_rows": 0.2, "mixed_triggers": 0.18}),
         SubCheck("noise_waveforms", history_cases(focus="noise_waveforms"),
                  make_roundtrip(["noise", "waveforms"], accessors=True),
-                 quick=160, thorough=8000, rule=_RULE + "; noise bases and waveforms "
-                 "(times and values) of every antenna",
-                 floors={"noisy": 0.3, "antenna_system": 0.3, "mixed_triggers": 0.3}),
+                 quick=160, thorough=8000,
+                 rule=_RULE + "; noise bases and waveforms (times and values) of every antenna",
+                 floors={"noisy": 0.22, "antenna_system": 0.2, "mixed_triggers": 0.3}),
         SubCheck("index_table", history_cases(faults=True), check_index_table,
-                 quick=160, thorough=8000, rule=_RULE + " with malformed add() calls interleaved; "
-                 "raw /event_indices: every (start,length) inside its table, rows of different "
-                 "events disjoint, particle row count per event",
-                 floors={"rejected_late": 0.3, "rejected_between_accepted": 0.2}),
+                 quick=160, thorough=8000,
+                 rule=_RULE + " with malformed add() calls interleaved; raw /event_indices: "
+                 "every (start,length) inside its table, rows of different events disjoint, "
+                 "particle row count per event",
+                 floors={"rejected_late": 0.2, "rejected_between_accepted": 0.15}),
         SubCheck("reject_raises", history_cases(faults=True), check_raises,
-                 quick=240, thorough=12000, rule=_RULE + " with malformed add() calls (missing "
-                 "rays/polarizations, triggered=None, dict without 'global', ray/polarization "
-                 "length mismatches, per-waveform list too short): rejected exactly when the "
-                 "options need the malformed argument, with the documented error type",
-                 floors={"rejected": 0.5, "malformed_but_unused": 0.1, "rejected_late": 0.3}),
+                 quick=200, thorough=10000,
+                 rule=_RULE + " with malformed add() calls (missing rays/polarizations, "
+                 "triggered=None, dict without 'global', ray/polarization length mismatches, "
+                 "per-waveform list too short): rejected exactly when the options need the "
+                 "malformed argument, with the documented error type",
+                 floors={"rejected": 0.35, "malformed_but_unused": 0.15, "rejected_late": 0.15}),
         SubCheck("reject_len", history_cases(faults=True), check_len_only,
-                 quick=160, thorough=8000, rule=_RULE + " with malformed add() calls; len(file) "
-                 "and the number of iterated events equal the number of accepted calls",
-                 floors={"rejected_last": 0.15, "rejected_between_accepted": 0.2},
+                 quick=160, thorough=8000,
+                 rule=_RULE + " with malformed add() calls; len(file) and the number of "
+                 "iterated events equal the number of accepted calls",
+                 floors={"rejected": 0.3, "rejected_between_accepted": 0.15},
                  classify=classify_len, shrink_cap=(60, 300)),
         SubCheck("reject_iter", history_cases(faults=True),
                  make_roundtrip(ALL_PARTS, check_len=False),
-                 quick=200, thorough=10000, rule=_RULE + " with malformed add() calls; all data "
-                 "of every accepted event by sequential iteration",
-                 floors={"rejected_between_accepted": 0.2, "rejected_late": 0.3},
+                 quick=160, thorough=8000,
+                 rule=_RULE + " with malformed add() calls; all data of every accepted event "
+                 "by sequential iteration",
+                 floors={"rejected": 0.35},
                  classify=classify_roundtrip, shrink_cap=(60, 300)),
         SubCheck("reject_index", history_cases(faults=True, slice_ranges=(None,)),
                  make_roundtrip(ALL_PARTS, mode="index", check_len=False),
-                 quick=160, thorough=8000, rule=_RULE + " with malformed add() calls; all data "
-                 "of every accepted event by integer indexing file[i]",
-                 floors={"rejected_between_accepted": 0.2, "rejected_late": 0.3},
+                 quick=160, thorough=8000,
+                 rule=_RULE + " with malformed add() calls; all data of every accepted event "
+                 "by integer indexing file[i]",
+                 floors={"rejected": 0.25, "rejected_late": 0.12},
                  classify=classify_roundtrip, shrink_cap=(60, 300)),
         SubCheck("thrown", history_cases(faults=True), check_thrown,
-                 quick=160, thorough=8000, rule=_RULE + " with malformed add() calls; "
-                 "total_events_thrown equals the sum of events_thrown of the accepted calls",
-                 floors={"rejected_late": 0.3},
+                 quick=160, thorough=8000,
+                 rule=_RULE + " with malformed add() calls; total_events_thrown equals the sum "
+                 "of events_thrown of the accepted calls",
+                 floors={"rejected": 0.15},
                  classify=classify_thrown, shrink_cap=(60, 300)),
         SubCheck("components_nowave", history_cases(nowave_probe=True, max_ops=4), check_nowave,
-                 quick=120, thorough=6000, rule="histories in which one event has no waveform on "
-                 "any antenna and carries a true event-level component trigger; non-trivial = the "
-                 "trigger record of that event is written",
-                 floors={"probe": 0.3},
+                 quick=120, thorough=6000,
+                 rule="histories in which one event has no waveform on any antenna and carries "
+                 "a true event-level component trigger; non-trivial = the trigger record of "
+                 "that event is written",
                  classify=classify_nowave, shrink_cap=(60, 300)),
     ],
     assumptions=[
